@@ -1,6 +1,14 @@
 import Driver.Util
 import Bifrost.Model.SigClient
-/-! Trace validation of the signaling client tracker against `Bifrost.SigC`. -/
+import Bifrost.Model.SigClientRecv
+/-! Trace validation of the signaling client tracker against `Bifrost.SigC`.
+
+Besides the tracker's critical sections (hook lines) the trace carries what the engine itself
+observed of every `Recv` CALL: `recvret,q=N` (the call returned message N with a nil error; `q=0`:
+it returned `context.Canceled`) and `recvend` (every `Recv` call made so far has returned). They
+are validated against `SigC.recvIter`: a call returns exactly the message its critical section
+marked processed, and a cancelled call has touched nothing — so every message a `recvstep` took
+is owed to the application until a `recvret` hands it over, and nothing may be owed at `recvend`. -/
 namespace Driver.Sigc
 open Bifrost Bifrost.SigC Driver
 
@@ -23,6 +31,27 @@ def showSend (s : State) (id : Nat) : String :=
   match getSend s id with
   | none => "?"
   | some c => s!"{b01 c.txed}:{optN c.sessEpoch}:{match c.result with | none => "-" | some true => "ok" | some false => "err"}"
+
+/-- the tracker state and the sequence numbers taken by `Recv` critical sections whose calls have
+not been seen to return yet -/
+structure VState where
+  s : State := {}
+  owed : List Nat := []
+
+/-- `Recv` at call level: returns / end-of-calls tokens and the `recvstep` bookkeeping. -/
+def applyRecvTok (v : VState) (kind : String) (args : List String) : Option (Except String VState) :=
+  match kind with
+  | "recvret" =>
+    match kvNat args "q" with
+    | none => some (throw "missing q in recvret")
+    | some 0 => some (pure v)   -- returned Canceled: by `recvIter` such a call owes nothing
+    | some q =>
+      if v.owed.contains q then some (pure { v with owed := v.owed.erase q })
+      else some (throw s!"recvret a Recv call returned message {q} that no Recv critical section had marked processed (model: recvIter returns exactly what it marks)")
+  | "recvend" =>
+    if v.owed.isEmpty then some (pure v)
+    else some (throw s!"recvend message(s) {showNatList v.owed} were marked processed by a Recv critical section (so they are acknowledged) but no Recv call returned them (model: recvIter returns what it marks; a cancelled caller touches nothing)")
+  | _ => none
 
 /-- validate one event token; returns the new state or an error description -/
 def applyTok (s : State) (tok : String) : Except String State := do
@@ -63,16 +92,30 @@ def applyTok (s : State) (tok : String) : Except String State := do
     if got ≠ did then throw s!"recvstep delivery expected={b01 did} got={b01 got}" else chk s'
   | _ => throw s!"unknown event {kind}"
 
-def validate : State → Nat → List String → String
-  | s, k, [] =>
+/-- the message a `recvstep` takes according to `recvIter` (the caller's context is irrelevant for that) -/
+def takenBy (s : State) : Option Nat :=
+  match (recvIter s .woken).2 with
+  | .returned r => some r.seqno
+  | _ => none
+
+def validate : VState → Nat → List String → String
+  | v, k, [] =>
+    let s := v.s
     let pend := (s.sends.filter (·.result.isNone)).map (·.id)
-    s!"ok events={k} pendingsends={showNatList pend} final={snapshot s} delivered={s.delivered.length}"
-  | s, k, t :: rest =>
-    match applyTok s t with
-    | .error e => s!"bad-step@{k} {e}"
-    | .ok s' =>
-      let v := checkAll s'
-      if v ≠ "" then s!"bad-step@{k} invariant-{v} post={snapshot s'}" else validate s' (k + 1) rest
+    s!"ok events={k} pendingsends={showNatList pend} final={snapshot s} delivered={s.delivered.length} owed={showNatList v.owed}"
+  | v, k, t :: rest =>
+    let fs := t.splitOn ","
+    match applyRecvTok v (fs.headD "") (fs.drop 1) with
+    | some (.error e) => s!"bad-step@{k} {e}"
+    | some (.ok v') => validate v' (k + 1) rest
+    | none =>
+      match applyTok v.s t with
+      | .error e => s!"bad-step@{k} {e}"
+      | .ok s' =>
+        let c := checkAll s'
+        if c ≠ "" then s!"bad-step@{k} invariant-{c} post={snapshot s'}" else
+        let owed' := if fs.headD "" = "recvstep" then (match takenBy v.s with | some q => q :: v.owed | none => v.owed) else v.owed
+        validate { s := s', owed := owed' } (k + 1) rest
 
 def handle (op : String) (args : List String) : Option String :=
   match op with
